@@ -28,9 +28,13 @@ def is_alpha(c):
 def upper(c):
     return c - 32 if 97 <= c <= 122 else c
 
+import operator
+
 class Aln:
+    """an alignment as the monitors see it; pairwise identity by its definition (independent of the Lean model)"""
     def __init__(self, mode):
         self.mode, self.rows, self.rf = mode, [], None
+        self._mx = None
     def is_res(self, c):
         if self.mode == "text": return is_alpha(c)
         K, Kp = ABC[self.mode]
@@ -44,6 +48,26 @@ class Aln:
         return nid, min(sum(ra), sum(rb))
     def pid(self, a, b):
         nid, n = self.pair(a, b)
+        return (nid / n) if n else 0.0
+    def add_row(self, r):
+        self.rows.append(r); self._mx = None
+    def pairs(self):
+        """all (nid, n) of the alignment, computed once per alignment: rows are re-keyed so that a non-residue never
+        equals anything (two different fillers), then compared position-wise"""
+        if self._mx is None or len(self._mx) != len(self.rows):
+            ka = [bytes(self.key(c) if self.is_res(c) else 254 for c in r) for r in self.rows]
+            kb = [bytes(self.key(c) if self.is_res(c) else 255 for c in r) for r in self.rows]
+            ln = [sum(1 for c in r if self.is_res(c)) for r in self.rows]
+            n = len(self.rows)
+            mx = [[None] * n for _ in range(n)]
+            for i in range(n):
+                for j in range(i, n):
+                    nid = sum(map(operator.eq, ka[i], kb[j]))
+                    mx[i][j] = mx[j][i] = (nid, min(ln[i], ln[j]))
+            self._mx = mx
+        return self._mx
+    def pidx(self, i, j):
+        nid, n = self.pairs()[i][j]
         return (nid / n) if n else 0.0
 
 def components(n, link):
@@ -78,7 +102,7 @@ class C16(Prop):
         "pb_sum", "pb_nonneg", "pb_formula", "pb_identical_rows",
         "singleLinkage_sizes", "idFilterDigital_spec", "quicksort_permutation", "blosum_formula", "blosum_sum_nonneg",
         "pb_counts_digital", "pb_counts_text", "pb_relisting_digital", "pb_relisting_text", "gsc_sum_nonneg",
-        "gsc_identical_rows_fails_at")]
+        "gsc_identical_rows_fails_at", "blosum_identical_rows", "pairIdMx_spec", "blosum_relisting")]
     claimed = True
     technique = ("Lean 4 proof over the exact (Q) instance of a numeric-class-polymorphic executable model of esl_distance/esl_cluster/"
                  "esl_msacluster/esl_quicksort/esl_msaweight/esl_tree(UPGMA) + bit-exact differential correspondence of the Float instance "
@@ -122,6 +146,7 @@ class C16(Prop):
     def gen_alignment(self, rng, mode, nseq, alen):
         res, gaps, odd = self._symbols(rng, mode)
         style = rng.choice(["random", "evolved", "evolved", "redundant", "fragments", "mixed"])
+        self._tally("style", style)
         pgap = rng.choice([0.0, 0.05, 0.2, 0.5, 0.8])
         podd = rng.choice([0.0, 0.0, 0.02, 0.1])
         def cell():
@@ -203,6 +228,9 @@ class C16(Prop):
                 ops += ["pairid i=%d j=%d" % (i, j), "pairid i=%d j=%d" % (j, i)]
         ops.append("pairid i=%d j=%d" % (rng.randrange(n), rng.randrange(n)))
         if n <= 40 and rng.random() < 0.5: ops.append("pairidmx")
+        if n <= 40 and rng.random() < 0.2: ops.append("diffmx")
+        if rng.random() < 0.25 and not big:
+            ops.append("multi seq=%s maxid=%s" % ("".join(rng.choice("pgb") for _ in range(rng.randrange(2, 5))), dbits(th[1])))
         ops.append("slink maxid=" + dbits(th[0]))
         ops.append("blosum maxid=" + dbits(th[rng.randrange(2)]))
         ops.append("pb")
@@ -219,9 +247,18 @@ class C16(Prop):
                 f32bits(rng.choice([0.5, 0.2, 0.9])), rng.choice([42, 1, rng.randrange(1, 1 << 62)])))
         return ops, th
 
+    def _tally(self, key, val):
+        d = self._dist.setdefault(key, {})
+        d[val] = d.get(val, 0) + 1
+
     def one_case(self, rng, name, nseq, alen, mode=None):
         mode = mode or rng.choice(["text", "amino", "amino", "dna", "rna"])
         rows, rf = self.gen_alignment(rng, mode, nseq, alen)
+        self._tally("mode", mode); self._tally("with_rf", rf is not None)
+        self._tally("nseq", "1" if nseq == 1 else "2-6" if nseq <= 6 else "7-30" if nseq <= 30 else "31-60" if nseq <= 60 else "61-300")
+        self._tally("alen", "1" if alen == 1 else "2-12" if alen <= 12 else "13-60" if alen <= 60 else "61-100" if alen <= 100 else "101-400")
+        self._tally("duplicate_rows", len(set(map(tuple, rows))) < len(rows))
+        self._tally("empty_rows", any(not any(Aln(mode).is_res(c) for c in r) for r in rows))
         aln = Aln(mode); aln.rows = rows; aln.rf = rf
         big = nseq * nseq * alen > 400000
         ops = ["abc t=" + mode] + self.aln_ops(mode, rows, rf)
@@ -268,6 +305,7 @@ class C16(Prop):
         return {"name": name, "ops": ops, "sticky": 1}
 
     def corpus(self, ctx):
+        if not hasattr(self, "_dist"): self._dist = {}
         c = []
         # textbook cases of esl_msaweight_utest + boundary shapes
         def mk(name, mode, rows, extra, rf=None):
@@ -296,8 +334,12 @@ class C16(Prop):
         c.append(mk("dig-single", "amino", [am("ACDEFGHIKL")], dstd))
         return c
 
+    def extra_evidence(self, ctx):
+        return {"input_distribution": getattr(self, "_dist", {})}
+
     def cases(self, ctx):
         rng = ctx.rng
+        self._dist = {}
         out = []
         quick = ctx.tier == "quick"
         nal = 700 if quick else 5000
@@ -308,7 +350,7 @@ class C16(Prop):
             else:          nseq, alen = rng.randrange(20, 61), rng.randrange(20, 101)
             out.append(self.one_case(rng, "aln%d" % c, nseq, alen))
         if not quick:
-            for c in range(40):
+            for c in range(120):
                 out.append(self.one_case(rng, "big%d" % c, rng.randrange(60, 301), rng.randrange(100, 401)))
             out.append(self.one_case(rng, "max", 300, 400))
         # GSC equivariance needs tie-free distances: few rows, many columns, noisy copies
@@ -319,6 +361,27 @@ class C16(Prop):
         for c in range(150 if quick else 1000):
             out.append(self.pairstr_case(rng, "pairstr%d" % c))
         return out
+
+    # ------------------------------------------------------------------ comparison
+    def compare(self, ctx, case, impl_out, model_out):
+        """exact, except that a weight vector may differ from the model's in rounding only (a change of summation
+        order is not a change of the property): bit-equal or within 1e-9 relative, everything else on the line exact"""
+        n = max(len(impl_out), len(model_out))
+        for i in range(n):
+            a = impl_out[i] if i < len(impl_out) else "<missing>"
+            b = model_out[i] if i < len(model_out) else "<missing>"
+            if a == b: continue
+            if " w=" in a and " w=" in b:
+                pa, wa = a.rsplit(" w=", 1); pb, wb = b.rsplit(" w=", 1)
+                try:
+                    xa = [undbits(x) for x in wa.split(",")]; xb = [undbits(x) for x in wb.split(",")]
+                except ValueError:
+                    return (i, a, b)
+                if pa == pb and len(xa) == len(xb) and all(close(x, y) for x, y in zip(xa, xb)):
+                    ctx.stats["weights_equal_up_to_rounding_only"] = ctx.stats.get("weights_equal_up_to_rounding_only", 0) + 1
+                    continue
+            return (i, a, b)
+        return None
 
     # ------------------------------------------------------------------ monitors
     def nontrivial(self, case, out):
@@ -347,7 +410,7 @@ class C16(Prop):
             if w[0] == "clear":
                 aln = Aln(aln.mode); cur = {"rows": aln.rows, "res": {}}; blocks.append(cur); continue
             if w[0] == "row":
-                if l.startswith("ok"): aln.rows.append(list(bytes.fromhex(kv["h"])))
+                if l.startswith("ok"): aln.add_row(list(bytes.fromhex(kv["h"])))
                 continue
             if w[0] == "rf":
                 if l.startswith("ok"): aln.rf = list(bytes.fromhex(kv["h"]))
@@ -381,7 +444,7 @@ class C16(Prop):
                 v = [undbits(x) for x in l.split()[1].split(",")]
                 for i in range(n):
                     for j in range(n):
-                        e = 1.0 if i == j else aln.pid(rows[i], rows[j])
+                        e = 1.0 if i == j else aln.pidx(i, j)
                         if v[i * n + j] != e or v[i * n + j] != v[j * n + i]:
                             return Failure("monitor", "PairIdMx[%d][%d] = %r, definition gives %r" % (i, j, v[i * n + j], e))
                 cnt("pairidmx"); continue
@@ -405,7 +468,7 @@ class C16(Prop):
                 maxid = undbits(kv["maxid"])
                 c = [int(x) for x in f["c"].split(",")]
                 nc = int(f["nc"]); nin = [int(x) for x in f["nin"].split(",")]
-                comp = components(n, lambda i, j: aln.pid(rows[i], rows[j]) >= maxid)
+                comp = components(n, lambda i, j: aln.pidx(i, j) >= maxid)
                 r = self._check_partition(c, nc, comp)
                 if r: return Failure("monitor", "single linkage at %r: %s" % (maxid, r))
                 if nin != [c.count(k) for k in range(nc)]: return Failure("monitor", "cluster sizes %r inconsistent with assignment" % nin)
@@ -417,14 +480,24 @@ class C16(Prop):
                     return Failure("monitor", "filtered alignment is not a sub-alignment of the input: %s" % l[:80])
                 for x in range(len(kept)):
                     for y in range(x + 1, len(kept)):
-                        if aln.pid(rows[kept[x]], rows[kept[y]]) >= maxid or aln.pid(rows[kept[y]], rows[kept[x]]) >= maxid:
+                        if aln.pidx(kept[x], kept[y]) >= maxid:
                             return Failure("monitor", "IDFilter at %r kept rows %d and %d with identity %r" % (
-                                maxid, kept[x], kept[y], aln.pid(rows[kept[x]], rows[kept[y]])))
+                                maxid, kept[x], kept[y], aln.pidx(kept[x], kept[y])))
                 ks = set(kept)
                 for r_ in range(n):
-                    if r_ not in ks and not any(aln.pid(rows[r_], rows[k]) >= maxid for k in kept):
+                    if r_ not in ks and not any(aln.pidx(r_, k) >= maxid for k in kept):
                         return Failure("monitor", "IDFilter at %r dropped row %d although it reaches the threshold with no kept row" % (maxid, r_))
                 cnt(w[0]); continue
+            if w[0] == "diffmx":
+                v = [undbits(x) for x in l.split()[1].split(",")]
+                for i in range(n):
+                    for j in range(n):
+                        e = 0.0 if i == j else 1.0 - aln.pidx(i, j)
+                        if v[i * n + j] != e: return Failure("monitor", "DiffMx[%d][%d] = %r, definition gives %r" % (i, j, v[i * n + j], e))
+                cnt("diffmx"); continue
+            if w[0] == "multi":
+                w = [{"p": "pb", "g": "gsc", "b": "blosum"}[kv["seq"][-1]]] + w[1:]
+                cnt("multi")
             if w[0] in ("pb", "pbadv", "blosum", "gsc"):
                 wt = [undbits(x) for x in f["w"].split(",")]
                 if len(wt) != n: return Failure("monitor", "%s returned %d weights for %d sequences" % (w[0], len(wt), n))
@@ -447,7 +520,7 @@ class C16(Prop):
                     else: seen[k] = i
                 if w[0] == "blosum":
                     maxid = undbits(kv["maxid"])
-                    comp = components(n, lambda i, j: aln.pid(rows[i], rows[j]) >= maxid)
+                    comp = components(n, lambda i, j: aln.pidx(i, j) >= maxid)
                     ncomp = len(set(comp))
                     for i in range(n):
                         e = Fraction(n, ncomp * comp.count(comp[i]))
@@ -493,9 +566,8 @@ class C16(Prop):
         return None
 
     def _dists(self, aln):
-        n = len(aln.rows)
-        return [Fraction(1) - (Fraction(*aln.pair(aln.rows[i], aln.rows[j])) if aln.pair(aln.rows[i], aln.rows[j])[1] else 0)
-                for i in range(n) for j in range(i + 1, n)]
+        n = len(aln.rows); mx = aln.pairs()
+        return [Fraction(1) - (Fraction(*mx[i][j]) if mx[i][j][1] else 0) for i in range(n) for j in range(i + 1, n)]
 
     def _tie_free(self, aln):
         d = self._dists(aln)
@@ -508,7 +580,7 @@ class C16(Prop):
         for i in range(n):
             for j in range(i + 1, n):
                 if aln.rows[i] != aln.rows[j]:
-                    nid, nn = aln.pair(aln.rows[i], aln.rows[j])
+                    nid, nn = aln.pairs()[i][j]
                     if nn and nid == nn: return True
         return False
 
